@@ -22,6 +22,11 @@ OPS = ["add", "sub", "mul", "div"]
 # ---------------------------------------------------------------------------------------------
 def summarize(start, calls):
     kind, table = start
+    if kind == "builder":
+        intos = [c for c in calls if c[0] == "into"]
+        if len(intos) != 1:
+            return None
+        kind, table = "into", intos[0][1]
     cols, rows, sets, wheres, froms, sels = [], [], [], [], [], []
     limit = None
     flags = [False, False]
@@ -51,6 +56,10 @@ def summarize(start, calls):
         elif k == "fromselect":
             froms.append(c[1])
             sels += c[2]
+        elif k == "from":
+            froms.append(c[1])
+        elif k == "select":
+            sels += c[1]
         elif k == "where":
             wheres.append(c[1])
         elif k == "limit":
@@ -433,3 +442,51 @@ def coq_c(case, outcome):
         if t[0] == "valb":
             t[2] = sqlite
     return "(CaseQ %s %s)" % (qf.coq_query(spec), S(outcome["text"]))
+
+
+# ---------------------------------------------------------------------------------------------
+# INSERT ... SELECT in every call order pypika accepts
+# ---------------------------------------------------------------------------------------------
+def insert_select_orders():
+    """every permutation of into / columns / from_ / select / where / [replace() | insert_or_replace()] in which into()
+    precedes columns(), select() and the verb call (into() AFTER select() is pypika's SELECT ... INTO, another statement);
+    the builder starts empty.  Target k(a UNIQUE, b, c) so that REPLACE differs from INSERT; source u."""
+    import itertools
+    w = ["basic", "gt", F("x"), I(1), None]
+    base = {"I": ["into", "k"], "C": ["columns", [["s", "a"], ["s", "b"]]], "F": ["from", "u"], "S": ["select", [F("x"), F("y")]],
+            "W": ["where", w]}
+    out = []
+    for verb in (None, "replace", "ior"):
+        names = "ICFSW" + ("R" if verb else "")
+        for perm in itertools.permutations(names):
+            pos = {n: i for i, n in enumerate(perm)}
+            if pos["I"] > pos["C"] or pos["I"] > pos["S"] or (verb and pos["I"] > pos["R"]):
+                continue
+            calls = [([verb, []] if n == "R" else base[n]) for n in perm]
+            case = {"kind": "b", "cls": "SQLLiteQuery", "start": ["builder", "k"], "calls": calls, "db": 2,
+                    "tag": "insert-select-order:" + (verb or "insert")}
+            case["spec"] = summarize(case["start"], calls)
+            out.append(case)
+    return out
+
+
+def random_insert_select_order(rng, g):
+    """a random INSERT ... SELECT of the generator, its calls re-dealt in a random admissible order on an empty builder"""
+    c = g.insert_select()
+    calls = []
+    for call in c["calls"]:
+        if call[0] == "fromselect":
+            calls += [["from", call[1]], ["select", call[2]]]
+        else:
+            calls.append(call)
+    calls.append(["into", c["start"][1]])
+    for _ in range(50):
+        rng.shuffle(calls)
+        pos_into = [i for i, x in enumerate(calls) if x[0] == "into"][0]
+        if all(i > pos_into for i, x in enumerate(calls) if x[0] in ("columns", "select", "insert", "replace", "ior")):
+            break
+    else:
+        calls = [x for x in calls if x[0] == "into"] + [x for x in calls if x[0] != "into"]
+    spec = summarize(["builder", c["start"][1]], calls)
+    # the relative order of columns / select items / from tables / criteria decides the specification: recompute, do not reuse
+    return {"kind": "b", "cls": c["cls"], "start": ["builder", c["start"][1]], "calls": calls, "spec": spec, "db": c["db"]}
